@@ -1087,7 +1087,9 @@ def explore(fn, max_paths=200000, timeout=3600, path_timeout=30, on_path=None, m
             prefix = todo.pop()
             c = Ctx(prefix)
             _ctx = c
-            signal.setitimer(signal.ITIMER_REAL, path_timeout)
+            # repeating timer: if the first PathTimeout is swallowed (e.g. raised inside a __del__ or a ctypes callback, where
+            # Python only prints "Exception ignored"), the next tick raises it again instead of leaving the path unbounded
+            signal.setitimer(signal.ITIMER_REAL, path_timeout, 2.0)
             try:
                 try:
                     res = fn(c)
@@ -1107,7 +1109,7 @@ def explore(fn, max_paths=200000, timeout=3600, path_timeout=30, on_path=None, m
                 signal.setitimer(signal.ITIMER_REAL, 0)
                 if pr is not None:
                     if on_path is not None:
-                        signal.setitimer(signal.ITIMER_REAL, max(path_timeout, 120))
+                        signal.setitimer(signal.ITIMER_REAL, max(path_timeout, 120), 2.0)
                         try:
                             on_path(pr)
                         except PathTimeout:
